@@ -46,7 +46,8 @@ ALPHABET = [
     (2, "\u200b"),                       # ZWSP
     (3, "\u2028\u2029"),                 # line / paragraph separator (str.splitlines boundaries, not Cc)
     (2, "\t"),                           # tab (inside only)
-    (2, "\ufffd\ud7ff\u0100\u3000\ufeff\ue000"),
+    (2, "\n"),                           # line feed (inside only): written as &#10; since the fix "write line feeds inside texts ..."
+    (3, "\ufffd\ud7ff\u0100\u3000\ufeff\ue000\ue001"),
     (2, "\\#;=%+~^$*?[]{}()|!@`,:"),
 ]
 _W = [w for w, _ in ALPHABET]
@@ -55,7 +56,7 @@ _W = [w for w, _ in ALPHABET]
 def gen_char(rng, no_tab=False, no_slash=True):
     while True:
         c = rng.choice(rng.choices(ALPHABET, weights=_W)[0][1])
-        if no_tab and c == "\t":
+        if no_tab and c in "\t\n":
             continue
         return c
 
@@ -74,9 +75,9 @@ def gen_text(rng, kind="text", allow_empty=True):
             chars.insert(0, rng.choice("  ​"))          # blanks at both ends
         if rng.random() < 0.15:
             chars.append(rng.choice("  ​"))
-        if chars[0] == "\t":
+        if chars[0] in "\t\n":
             chars[0] = "t"
-        if chars[-1] == "\t":
+        if chars[-1] in "\t\n":
             chars[-1] = "t"
         s = "".join(chars)
         if kind == "name":
